@@ -157,7 +157,9 @@ static void checkAll() {
     const Info &I = info[s];
     if (I.hasProd && I.prod.known) {
       const Prod &p = I.prod;
-      bool naDef = (p.ver == 0xffff && e->GetN2kVersion() == 2101) || (p.cert == 0xff && e->GetCertificationLevel() == 0) || (p.load == 0xff && e->GetLoadEquivalency() == 1);
+      // "defaults substituted for N/A": every number is either as sent or the default standing in for N/A, and the rest of the record is the expected one
+      bool naDef = (e->GetN2kVersion() == p.ver || (p.ver == 0xffff && e->GetN2kVersion() == 2101)) && (e->GetCertificationLevel() == p.cert || (p.cert == 0xff && e->GetCertificationLevel() == 0)) &&
+                   (e->GetLoadEquivalency() == p.load || (p.load == 0xff && e->GetLoadEquivalency() == 1)) && e->GetProductCode() == p.code && cstr(e->GetModelID()) == p.s[0] && cstr(e->GetModelSerialCode()) == p.s[3];
       if (I.parked) {
         const char *g[4] = {e->GetModelID(), e->GetSwCode(), e->GetModelVersion(), e->GetModelSerialCode()};
         bool same = e->GetN2kVersion() == p.ver && e->GetCertificationLevel() == p.cert && e->GetLoadEquivalency() == p.load && e->GetProductCode() == p.code;
@@ -332,6 +334,7 @@ static std::string randText(Rng &R, int maxLen, bool allowUtf8) {
 
 struct Gen {
   Rng &R; std::vector<int> srcs; std::vector<uint64_t> names;
+  std::vector<std::vector<unsigned char>> prodPool;   // product information already sent in this case (devices re-send it after every address change)
   explicit Gen(Rng &r) : R(r) {}
   int src() { if (R.chance(1, 40)) return (int)R.range(252, 255); return R.pick(srcs); }
   void claim() {
@@ -340,12 +343,15 @@ struct Gen {
     exec("claim " + std::to_string(s) + " " + name16(n));
   }
   void prod() {
+    if (!prodPool.empty() && R.chance(2, 5)) { exec(msgLineV(126996, src(), R.pick(prodPool))); return; }   // byte-identical re-send
     int s = src(); tN2kMsg m;
     static const unsigned vers[] = {2101, 1300, 0xffff, 0, 2100}; static const unsigned bytes[] = {0, 1, 2, 0xfe, 0xff, 7};
     std::string a = randText(R, 32, false), b = randText(R, 32, false), c = randText(R, 32, false), d = randText(R, 32, false);
     SetN2kPGN126996(m, vers[R.below(5)], R.chance(1, 6) ? 0xffff : (unsigned)R.below(60000), a.c_str(), b.c_str(), c.c_str(), d.c_str(), bytes[R.below(6)], bytes[R.below(6)]);
     if (R.chance(1, 12)) { m.DataLen = (int)R.below(135); }                         // truncated
     if (R.chance(1, 20)) { for (int i = 0; i < 6; i++) m.Data[4 + R.below(128)] = (unsigned char)R.next(); }   // arbitrary bytes in the strings
+    // only complete messages are re-sent: on a truncated one the library compares uninitialised bytes of its local buffer (IsSame = memcmp), see trusted base
+    if (prodPool.size() < 4 && m.DataLen == 134) prodPool.push_back(std::vector<unsigned char>(m.Data, m.Data + m.DataLen));
     exec(msgLine(126996, s, m));
   }
   static void putVar(std::vector<unsigned char> &d, int type, const std::vector<unsigned char> &body) { d.push_back((unsigned char)(body.size() + 2)); d.push_back((unsigned char)type); d.insert(d.end(), body.begin(), body.end()); }
@@ -467,6 +473,39 @@ static void fullTableCase(Rng &R) {
   }
 }
 
+// product information stories: a device with known product information P moves (or not), re-sends P byte-identically
+// (or a different first message), then sends a different Q - only the FIRST message after the claim may be reported.
+// Getter query and `upd` after every message.
+static std::vector<unsigned char> prodPayload(Rng &R, bool na) {
+  tN2kMsg m; std::string a = randText(R, 32, false), b = randText(R, 32, false), c = randText(R, 32, false), d = randText(R, 32, false);
+  SetN2kPGN126996(m, na ? 0xffff : 2101, (unsigned)R.below(60000), a.c_str(), b.c_str(), c.c_str(), d.c_str(), na ? 0xff : 1, na ? 0xff : (unsigned char)(1 + R.below(9)));
+  return std::vector<unsigned char>(m.Data, m.Data + m.DataLen);
+}
+static void prodStory(Rng &R, int variant) {
+  exec("reset " + std::to_string(R.chance(1, 6) ? 0 : 1) + " " + std::to_string(g_now + 3000 + R.below(5000)));
+  uint64_t A = (R.next() | 0x100) & 0x7fffffffffffffffULL, B = A + 0x100000000ULL;
+  int s1 = (int)R.below(254), s2 = (s1 + 1 + (int)R.below(252)) % 254;
+  bool na = variant & 8;
+  std::vector<unsigned char> P = prodPayload(R, na), Q = prodPayload(R, false), Z = prodPayload(R, false);
+  auto look = [&](int s) { exec("bysrc " + std::to_string(s)); exec("byname " + name16(A)); exec("upd"); };
+  if (variant & 4) { exec("data " + std::to_string(s1) + " 127250"); exec("upd"); }     // reservation first
+  exec("claim " + std::to_string(s1) + " " + name16(A)); look(s1);
+  exec(msgLineV(126996, s1, P)); look(s1);
+  int s = s1;
+  switch (variant & 3) {
+    case 0: s = s2; exec("claim " + std::to_string(s2) + " " + name16(A)); look(s2); break;                 // address move
+    case 1: break;                                                                                            // no move
+    case 2: exec("claim " + std::to_string(s1) + " " + name16(A)); look(s1); break;                           // re-claim, same address
+    case 3: exec("claim " + std::to_string(s1) + " " + name16(B)); look(s1);                                  // displaced, then claims another address
+            s = s2; exec("claim " + std::to_string(s2) + " " + name16(A)); look(s2); break;
+  }
+  if (R.chance(1, 3)) { exec("t 1500"); exec("data " + std::to_string(s) + " 129026"); exec("upd"); }
+  exec(msgLineV(126996, s, (variant & 16) ? Z : P)); look(s);      // first after the claim: identical re-send, or a different one
+  exec(msgLineV(126996, s, Q)); look(s);                           // must be ignored
+  exec(msgLineV(126996, s, P)); look(s);
+  exec("count");
+}
+
 // small-scope exhaustive: every sequence of length `len` over claims {2 sources x 3 names(0,A,B)} + data from the 2 sources
 static void exhaustive(int len) {
   std::vector<std::string> alpha;
@@ -491,6 +530,9 @@ int main(int argc, char **argv) {
   C.sample("exhaustive: all sequences of length " + std::to_string(C.thorough ? 4 : 3) + " over {claim 2 sources x NAMEs 0,A,B; data from 2 sources}");
   fullTableCase(R);
   C.sample("full table: 254 NAMEs on 254 addresses, then takeovers/moves with no free slot");
+  for (int rep = 0; rep < (C.thorough ? 8 : 2); rep++) for (int v = 0; v < 32; v++) prodStory(R, v);
+  C.sample("product information stories: known P, then {address move | nothing | re-claim | displaced and moved} x {P re-sent byte-identically | different first message} x "
+           "{with/without reservation} x {N/A numbers}, then a different Q and P again; bysrc/byname/upd after every message");
   int ncases = C.thorough ? 900 : 120;
   for (int i = 0; i < ncases; i++) randomCase(R, C.thorough ? 60 + (int)R.below(260) : 40 + (int)R.below(160));
   C.sample("random histories: 2..252 sources, 3..15 NAMEs incl. 0/all-ones/1, shared manufacturer codes; claims new/move/takeover/re-claim/short, 126996/126998/126464 "
